@@ -1325,25 +1325,22 @@ Proof.
 Qed.
 
 (* ================= ownership of the argument buffers ================= *)
-Lemma owner_semantics BC KS c k iv cr ivnow o :
-  cr_ok (cid_bs c) cr -> cid_bs c <= length ivnow ->
-  exists cr', istep_env BC KS (IBlock c k iv cr) ivnow o =
-              Some (cfb_op (cid_bs c) (BC c k) ivnow o, IBlock c k iv cr') /\ cr_ok (cid_bs c) cr'.
+Lemma owner_values BC KS (ops : list wop) : forall w,
+  wrun BC KS w ops = option_map fst (irun BC KS (w_inst w) (calls ops)).
 Proof.
-  intros Hc Hiv. cbn [istep_env].
-  destruct (cstep_spec (cid_bs c) (BC c k) ivnow cr o (cid_bs_supported c) Hiv Hc) as (cr' & H & Hc').
-  rewrite H. exists cr'. split; [reflexivity | exact Hc'].
+  induction ops as [|o r IH]; intros w; cbn [wrun calls irun option_map fst]; [reflexivity|].
+  destruct o as [o | b | b]; cbn [calls irun].
+  - destruct (istep BC KS (w_inst w) o) as [[out i']|]; [|reflexivity].
+    rewrite (IH (mkworld (w_key w) (w_iv w) i')). cbn [w_inst].
+    destruct (irun BC KS i' (calls r)) as [[outs i'']|]; reflexivity.
+  - apply (IH (mkworld b (w_iv w) (w_inst w))).
+  - apply (IH (mkworld (w_key w) b (w_inst w))).
 Qed.
 
-Lemma owner_unchanged_iv BC KS i o :
-  istep_env BC KS i (acc_iv i) o = istep BC KS i o.
-Proof. destruct i as [c k iv cr | k n |]; reflexivity. Qed.
-
-Lemma owner_iv_refuted :
-  exists BC KS name key iv ivnow m i,
-    new_crypt name key iv = Some i /\ length ivnow = length iv /\
-    option_map fst (istep_env BC KS i ivnow (Enc m)) <> option_map fst (istep BC KS i (Enc m)).
+Lemma wnew_frame name keybuf ivbuf w :
+  wnew name keybuf ivbuf = Some w ->
+  w_key w = keybuf /\ w_iv w = ivbuf /\ new_crypt name keybuf ivbuf = Some (w_inst w).
 Proof.
-  exists (fun _ _ b => b), (fun _ _ _ => 0%N), name_aes128, (repeat 1%N 16), (repeat 0%N 16), (repeat 1%N 16), [0%N].
-  eexists. split; [reflexivity|]. split; [reflexivity|]. vm_compute. discriminate.
+  unfold wnew. destruct (new_crypt name keybuf ivbuf) as [i|]; [|discriminate].
+  intros [= <-]. repeat split.
 Qed.
